@@ -8,6 +8,7 @@ import sys
 import traceback
 import zlib
 from gzip import GzipFile
+from http.client import HTTPException
 from pathlib import Path
 from urllib.parse import quote, unquote, urljoin, urlsplit
 from urllib.request import Request, pathname2url, urlopen
@@ -268,6 +269,11 @@ def fetch(url_fetcher, url):
     if 'file_obj' in result:
         try:
             yield result
+        except URLFetchingError:
+            raise
+        except (EOFError, HTTPException, OSError, zlib.error) as exception:
+            # Error when reading the stream, e.g. timeout or truncated content.
+            raise URLFetchingError(f'{type(exception).__name__}: {exception}')
         finally:
             try:
                 result['file_obj'].close()
